@@ -87,6 +87,8 @@ mod ext;
 
 mod graph;
 pub use graph::Graph;
+#[cfg(graphrs_verif)]
+pub use graph::verif::VerifSnapshot;
 
 pub(crate) use graph::adjacent_node::AdjacentNode;
 
